@@ -262,7 +262,24 @@ def gen_C18(tier, seed, unit, nunits):
             x = G.rand_val(rng, s, n, f, E)
             steps = [wstep(rng, s, n, f, E, x if i == 0 else None) for i in range(rng.randint(2, 12))]
             out.append(f'wprog {s} {n} {f} {x} ' + ' '.join(steps))
-    return {'wrap': out}
+    conv, text = wrapping_entry_points(tier, seed, unit, nunits)
+    return {'wrap': out, 'conv': conv, 'text': text}
+
+# `Wrapping::<F>::from_num`, `Wrapping(x).to_num`, `Wrapping::<F>::from_str[_binary|_octal|_hex]` (wrapping.rs) are exercised through their own
+# entry points with the operands of the directed conversion / parsing generators
+W_ALIAS = [('cv_wrapping_from ', 'cv_wfrom '), ('cv_wrapping ', 'cv_wto '), ('icv_wrapping_from ', 'icv_wfrom '), ('icv_wrapping ', 'icv_wto '),
+           ('fcv_wrapping_from ', 'fcv_wfrom ')]
+def wrapping_entry_points(tier, seed, unit, nunits):
+    conv, text = [], []
+    for g in (gen_C04, gen_C05):
+        for l in g(tier, seed, unit, nunits).get('conv', []):
+            for a, b in W_ALIAS:
+                if l.startswith(a):
+                    conv.append(b + l[len(a):]); break
+    for l in gen_C08(tier, seed, unit, nunits).get('text', []):
+        if l.startswith('p_wrapping_'):
+            text.append('p_wtype_' + l[len('p_wrapping_'):])
+    return conv, text
 
 def le_hex(n, x):
     x &= (1 << n) - 1
@@ -583,7 +600,7 @@ def gen_C09(tier, seed, unit, nunits):
                 out.append(req('f_fmt', s, n, f, 'd', 'n', 0, 0, 0, '-', rng.randint(0, 12), x))
     return {'text': out}
 
-C11_PARTS = [('C01', 4), ('C02', 4), ('C06', 6), ('C07', 8), ('C18', 1), ('C04', 3), ('C05', 3), ('C03', 6), ('C12', 2), ('C08', 2), ('C09', 2)]
+C11_PARTS = [('C01', 4), ('C02', 4), ('C06', 6), ('C07', 8), ('C18', 1), ('C04', 3), ('C05', 3), ('C03', 6), ('C12', 2), ('C08', 2), ('C09', 2), ('C10', 6)]
 def gen_C11(tier, seed, unit, nunits):
     """the union corpus: every family's requests (sub-sampled in quick), run under both build profiles"""
     out = {}
@@ -603,10 +620,10 @@ PROPS = {
     'C01': dict(lean_modules=['SfxProps.C01'], bins=['arith'], profiles=['chk', 'rel'], gen=gen_C01, thorough_all_fracs=True),
     'C06': dict(lean_modules=['SfxProps.C06'], bins=['arith'], profiles=['chk', 'rel'], gen=gen_C06, thorough_all_fracs=True),
     'C07': dict(lean_modules=['SfxProps.C07'], bins=['arith'], profiles=['chk', 'rel'], gen=gen_C07, thorough_all_fracs=True),
-    'C18': dict(lean_modules=['SfxProps.C18'], bins=['wrap'], profiles=['chk', 'rel'], gen=gen_C18, thorough_all_fracs=True,
+    'C18': dict(lean_modules=['SfxProps.C18'], bins=['wrap', 'conv', 'text'], profiles=['chk', 'rel'], gen=gen_C18, thorough_all_fracs=True,
                 rule='programs of 1..12 Wrapping operations (every impl variant is a distinct step kind); de-duplicated per unit; '
                      'non-trivial = some operand magnitude > 1; evaluations counts program x profile executions'),
-    'C10': dict(lean_modules=['SfxProps.C10'], bins=['codec'], profiles=['rel'], gen=gen_C10, thorough_all_fracs=True,
+    'C10': dict(lean_modules=['SfxProps.C10'], bins=['codec'], profiles=['chk', 'rel'], gen=gen_C10, thorough_all_fracs=True,
                 rule='bit patterns (8-bit exhaustive), their encodings, short/long/random byte strings; de-duplicated per unit; '
                      'non-trivial = operand magnitude > 1 or a byte-string argument',
                 assumptions=['serde form {bits}: not exercised (no serde_json in the offline registry); little-endian target for *_ne_bytes']),
@@ -616,13 +633,13 @@ PROPS = {
     'C12': dict(lean_modules=['SfxProps.C12', 'SfxProps.C12Tan'], bins=['math'], profiles=['chk', 'rel'], gen=gen_C12),
     'C13': dict(lean_modules=['SfxProps.C13'], bins=['math'], profiles=['rel'], gen=gen_C13, oracle=True),
     'C14': dict(lean_modules=['SfxProps.C14'], bins=['math'], profiles=['rel'], gen=gen_C14, oracle=True),
-    'C15': dict(lean_modules=['SfxProps.C15'], bins=['math'], profiles=['rel'], gen=gen_C15, oracle=True),
+    'C15': dict(lean_modules=['SfxProps.C15', 'SfxProps.C15Acc'], bins=['math'], profiles=['rel'], gen=gen_C15, oracle=True),
     'C16': dict(lean_modules=['SfxProps.C16', 'SfxProps.C16Acc'], bins=['math'], profiles=['rel'], gen=gen_C16, oracle=True),
     'C17': dict(lean_modules=['SfxProps.C17'], bins=['math'], profiles=['rel'], gen=gen_C17),
     'C08': dict(lean_modules=['SfxProps.C08', 'SfxProps.C08Holds'], bins=['text'], profiles=['chk', 'rel'], gen=gen_C08),
     'C09': dict(lean_modules=['SfxProps.C09'], bins=['text'], profiles=['chk', 'rel'], gen=gen_C09),
-    'C11': dict(lean_modules=['SfxProps.C11'], bins=['arith', 'wrap', 'conv', 'math', 'text'], profiles=['chk', 'rel'], gen=gen_C11,
-                rule='union of the request corpora of C01 C02 C06 C07 C18 C04 C05 C03 C12 C08 C09 (sub-sampled in quick), each request executed by the harness built with and '
+    'C11': dict(lean_modules=['SfxProps.C11'], bins=['arith', 'wrap', 'conv', 'math', 'text', 'codec'], profiles=['chk', 'rel'], gen=gen_C11,
+                rule='union of the request corpora of C01 C02 C06 C07 C18 C04 C05 C03 C12 C08 C09 C10 (sub-sampled in quick), each request executed by the harness built with and '
                      'without debug assertions/overflow checks and compared with the model projections; non-trivial = some operand magnitude > 1'),
     'C02': dict(lean_modules=['SfxProps.C02'], bins=['arith'], profiles=['chk', 'rel'], gen=gen_C02, thorough_all_fracs=True),
 }
